@@ -13,6 +13,7 @@ class FaultPlan:
       dst    name of the receiving radio (rule applies to that receiver only)
       ack    True: only auto-ACK packets, False: only non-ACK packets
       nth    index among the transmissions that match (src, ack) - counted per (src, ack) pair
+      ptype  network header type byte of the payload (payload[6]); pto: header to_node field
       t0,t1  window on the start time of the transmission (ns)
       what   "drop" (default) | "flip" (with "bits": [bit indexes into the payload])
 
@@ -36,6 +37,10 @@ class FaultPlan:
             if "ack" in r and bool(r["ack"]) != rec["ack"]:
                 continue
             if "nth" in r and r["nth"] != rec["nth"][1 if rec["ack"] else 0]:
+                continue
+            if "ptype" in r and (len(rec["data"]) < 8 or rec["data"][6] != r["ptype"]):
+                continue
+            if "pto" in r and (len(rec["data"]) < 8 or (rec["data"][2] | (rec["data"][3] << 8)) != r["pto"]):
                 continue
             if "t0" in r and rec["t0"] < r["t0"]:
                 continue
